@@ -78,3 +78,12 @@ def cellToChildrenS (h : BitVec 64) (childRes : Int) : List (BitVec 64) :=
     (childDigitStrings (isPentagon h) m).map (writeDigits (setRes h childRes.toNat) (getRes h))
 
 end H3
+
+namespace H3
+
+/-- all cells of a resolution: the children of the 122 base cells, base cell after base cell
+(specification-level counterpart of iterInitRes / iterStepRes) -/
+def cellsEnumS (res : Nat) : List (BitVec 64) :=
+  (List.range 122).flatMap fun bc => cellToChildrenS (setH3Index 0 bc 0) (res : Int)
+
+end H3
